@@ -15,7 +15,7 @@ pub fn props_of(_case: &Value) -> Vec<&'static str> { vec!["C22", "C23"] }
 
 const TIMEOUT_PREFIX: &str = "Query timed out";
 
-fn answer_text(qt: &Tm, ans: &[Tm]) -> String {
+pub fn answer_text(qt: &Tm, ans: &[Tm]) -> String {
     let mut parts = vec![];
     if let Tm::Cx(_, args) = qt {
         for (i, a) in args.iter().enumerate() {
